@@ -1,12 +1,12 @@
 #!/bin/sh
-# seedtest.sh <seed-dir> <check-id> [tier]: apply a seeded change to /repo, run one check, undo the change.
+# seedtest.sh <seed-dir> <check-id> [tier]: apply a seeded change to /repo, run one check, undo the change (also when interrupted).
 d=$1; id=$2; tier=${3:-quick}
 cd /repo || exit 2
 git diff --quiet || { echo "repo dirty"; exit 2; }
+trap 'cd /repo && git checkout -- . ; rm -f /verif/work/seedtest_$$.log' EXIT INT TERM
 git apply "$d/patch.diff" || { echo "patch does not apply"; exit 2; }
-cd /verif && bin/check "$id" --tier "$tier" > /verif/work/seedtest_$$.log 2>&1
+cd /verif && timeout ${SEEDTEST_TIMEOUT:-1500} bin/check "$id" --tier "$tier" > /verif/work/seedtest_$$.log 2>&1
 rc=$?
-cd /repo && git checkout -- . 
+cd /repo && git checkout -- .
 grep -E "VIOLATION|KNOWN-FINDING|TOOL-ERROR|quick:|thorough:" /verif/work/seedtest_$$.log | cut -c1-300 | head -8
-rm -f /verif/work/seedtest_$$.log
 echo "seed=$(basename $d) check=$id rc=$rc"
